@@ -27,7 +27,7 @@ def Config.checks (c : Config) : Bool :=
   runsOK c.runs && decide (runsLen c.runs = c.size) && decide (c.size ≤ 2147483648) &&
   decide (lastVal c.runs = 0) && decide (c.zero = zeroOf c.shift) &&
   decide (c.width = widthOf (headVal c.runs)) &&
-  decide (0 < c.baseDen) && decide (c.baseDen ≤ c.baseNum) &&
+  decide (0 < c.baseDen) && decide (c.baseDen < c.baseNum) &&
   decide (c.effNum = c.baseNum ^ 2 ^ c.shift) && decide (c.effDen = c.baseDen ^ 2 ^ c.shift) &&
   c.acc.checkRuns c.runs
 
@@ -37,6 +37,8 @@ structure Config.Checked (c : Config) : Prop where
   last_zero : lastVal c.runs = 0
   zero_eq : c.lm.zero = zeroOf c.lm.shift
   width_eq : c.width = widthOf (tval c.lm.table 0)
+  den_pos : 0 < c.baseDen
+  base_gt : c.baseDen < c.baseNum
   good : c.acc.Good
   acc : ∀ d, AccAt (c.baseNum ^ 2 ^ c.shift) (c.baseDen ^ 2 ^ c.shift) (2 ^ 20) d (tval c.lm.table d)
 
@@ -48,8 +50,8 @@ theorem Config.checked_of_checks {c : Config} (h : c.checks = true) : c.Checked 
     · show 0 < c.effDen
       rw [hQ]; exact Nat.pow_pos h7
     · show c.effDen ≤ c.effNum
-      rw [hP, hQ]; exact Nat.pow_le_pow_left h8 _
-  refine ⟨tableOK_of_runs h1 (by omega), ?_, h4, h5, ?_, g, ?_⟩
+      rw [hP, hQ]; exact Nat.pow_le_pow_left (Nat.le_of_lt h8) _
+  refine ⟨tableOK_of_runs h1 (by omega), ?_, h4, h5, ?_, h7, h8, g, ?_⟩
   · show (tableOfRuns c.runs).size = c.size
     rw [size_tableOfRuns, h2]
   · show c.width = widthOf (tval (tableOfRuns c.runs) 0)
